@@ -162,6 +162,32 @@ def dataset_aliasing(ctx, how):
     return ctx.done(ctx.AND(*oks), ctx.observe(a))
 
 
+def construct_from(ctx, how):
+    """building a new array / Dataset from an existing array never changes (or shares) the source's metadata, axes or values"""
+    ctx.c15_mode = False
+    da = ctx.da
+    a, ra, attrs = _arr(ctx, [2, 2], ['i', 'U'], 'a')
+    nv = ctx.real('nv')
+    if how == 'DimArray-kwargs':
+        b = da.DimArray(a, units2='km', long_name='x')
+    elif how == 'DimArray-then-attrs':
+        b = da.DimArray(a)
+        b.attrs['new'] = 1
+        b.attrs['hist'] = 0
+    elif how == 'array-kwargs':
+        b = da.array(a, name='n')
+    elif how == 'DimArray-copy-values':
+        b = da.DimArray(a, copy=True)
+        b.values[0, 0] = nv
+    elif how == 'DimArray-axes-rename':
+        b = da.DimArray(a.values.copy(), axes=[ax.copy() for ax in a.axes])
+        b.axes[0].name = 'renamed'
+    elif how == 'empty_like-fill':
+        b = da.zeros_like(a)
+        b.fill(nv)
+    return ctx.done(same(ctx, a, ra, attrs=attrs), ctx.observe(a))
+
+
 def comma_axis_operand(ctx, how):
     """an operand whose axis name contains a comma (result of N-d boolean indexing or of flatten) is not renamed by operations"""
     ctx.c15_mode = False
@@ -203,6 +229,8 @@ def templates():
         for what in ('values', 'values-setitem', 'fill', 'labels', 'labels-attr', 'axis-name', 'dims', 'attrs', 'mutable-attr', 'axis-attrs', 'sort-axis-inplace'):
             for shape, lks in (([3], ['i']), ([2, 2], ['U', 'f'])):
                 add('copy-%s-%s-%s' % (direction, what, 'x'.join(map(str, shape))), 'copy_independent', cost=0.3, shape=shape, lkinds=lks, direction=direction, what=what)
+    for how in ('DimArray-kwargs', 'DimArray-then-attrs', 'array-kwargs', 'DimArray-copy-values', 'DimArray-axes-rename', 'empty_like-fill'):
+        add('construct-from-%s' % how, 'construct_from', cost=0.3, how=how)
     for src in ('mask', 'flatten'):
         for op in ('add', 'radd', 'reshape', 'broadcast', 'broadcast_arrays'):
             add('comma-axis-%s-%s' % (src, op), 'comma_axis_operand', cost=0.3, how='%s-%s' % (src, op))
